@@ -6,12 +6,66 @@ VERIF = os.path.dirname(os.path.dirname(os.path.abspath(__file__)))
 
 # property -> (level text, level note, technique)
 CLAIMED = {
-    "C10": (
-        "Coq theorems: for every strictly increasing x (any length >= 1) and every non-decreasing query list the three scans equal "
-        "the per-query specification, and the specification is the unique neighbour the property names (all sizes, all values). "
-        "The model is tied to the code by exhaustive small-lattice + random-float correspondence evaluated inside Coq on every run.",
-        "hand-written model coq/Model/Search.v tied by correspondence (sampled); float near-ties of 'closest' (exact margin < 1e-9 of the gap, non-zero) are dropped",
-        "Coq proof (induction over the scans) + in-Coq correspondence"),
+    "C01": ("Coq theorems (any length, any values, both rules on both sides, every power function meeting PwOk, all three fixed-point modes): the "
+            "stretching kernel hits its target integral exactly, sequential in-place window stretching gives every window its own reference "
+            "integral, the total follows; integer exponents satisfy PwOk with no assumption. Tied to match.py by in-Coq correspondence.",
+            "hand-written model coq/Model/Match.v tied by sampled correspondence; real t^alpha meeting PwOk is pen-and-paper; floats not modelled",
+            "Coq proof (linearity of the integral, window induction) + in-Coq correspondence"),
+    "C02": ("Coq theorems, strategy-independent (any fine series of the right length, hence every strategy and parameter choice): default "
+            "fixed points are every n-th sample, every block integral equals average*width under both target rules, rectangle block averaging "
+            "returns the original abscissae exactly and every average. Tied by Weaver-program correspondence incl. all bundled datasets.",
+            "models Match/Search/SortedUtils/Interval tied by sampled correspondence; floats not modelled",
+            "Coq proof composing C01+C04+C10 theorems + in-Coq correspondence"),
+    "C03": ("Coq theorems: samples outside the fixed span and the fixed points are unchanged (Leibniz), the displacement inside a window is one "
+            "scalar times the documented profile 1-(2|x-c|/w)^alpha (zero at ends, symmetric, largest at centre), the kernel is jointly affine, "
+            "matching is idempotent (exact equality).",
+            "as C01", "Coq proof + in-Coq correspondence"),
+    "C04": ("Coq theorems for all six strategies and every parameter value: length (m-1)n+1 for x and y, x-part is exactly the n-fold linspace "
+            "oversampling (every n-th abscissa an original, equal spacing d_k/n), strictly increasing, n<2 rejected; the one-interval extension is "
+            "cut off exactly. Container kind / bit-exactness / finiteness are observed on the implementation by the correspondence run and oracle.",
+            "model coq/Model/Rfa.v tied by sampled correspondence; ndarray kind, -0.0 and finiteness are runtime observations, not theorems",
+            "Coq proof + in-Coq correspondence"),
+    "C08": ("Coq theorems over the Weaver state machine: working = reference is an invariant of every domain operation, hence of every history "
+            "of any length (induction), and both equal the fold of the pure transformations; reshaping operations never touch the reference "
+            "(also when they raise). Tied by exhaustive short + random program correspondence with state comparison after every step.",
+            "model coq/Model/Weaver.v tied by sampled program correspondence; external libraries enter as recorded oracle answers",
+            "Coq proof (invariant + induction over histories) + in-Coq program correspondence"),
+    "C09": ("Coq theorems: WF (equal lengths, strictly increasing x, for working series and original) is preserved by every valid successful "
+            "operation, hence by every program; the original changes only under normalisation and then exactly by it; after restore_original the "
+            "state IS the freshly constructed one (Leibniz), so every continuation behaves identically. Partial: buffer aliasing (caller arrays), "
+            "container kind and finiteness are NumPy runtime facts observed by the correspondence run, not theorems.",
+            "model coq/Model/Weaver.v; NumPy object model (aliasing, kinds, dtypes) observed not proved; library answers are oracles",
+            "Coq proof (preservation lemma per operation, induction) + in-Coq program correspondence"),
+    "C10": ("Coq theorems: for every strictly increasing x (any length >= 1) and every non-decreasing query list the three scans equal "
+            "the per-query specification, and the specification is the unique neighbour the property names (all sizes, all values). "
+            "The model is tied to the code by exhaustive small-lattice + random-float correspondence evaluated inside Coq on every run.",
+            "hand-written model coq/Model/Search.v tied by correspondence (sampled); float near-ties of 'closest' (exact margin < 1e-9 of the gap, non-zero) are dropped",
+            "Coq proof (induction over the scans) + in-Coq correspondence"),
+    "C11": ("Coq theorems: truncate returns the contiguous run from the unique lower neighbour of the left bound to the unique higher neighbour "
+            "of the right bound (C10's characterisations), minimal, x and y cut identically; inverted range rejected; ratios converted with the "
+            "series' own span; Weaver-level index/value slicing is part of the Weaver model (py_slice) checked by correspondence.",
+            "models Process/Weaver tied by sampled correspondence",
+            "Coq proof + in-Coq correspondence"),
+    "C12": ("Coq theorems: closed form x_j + i*P, tiled values, strict monotonicity, first copy = input, junction step, repeat-once identity and "
+            "repeat a then b = repeat a*b (Leibniz), for all series of >= 2 points and all r.",
+            "model coq/Model/Process.v tied by sampled correspondence", "Coq proof (loop invariant over the in-place fold) + in-Coq correspondence"),
+    "C13": ("Coq theorems for 'linear' (numpy.interp model) and 'constant' (through C10's scan): exact at nodes, straight line between neighbours, "
+            "clamping outside, affine data reproduced, last-sample-at-or-before semantics. Partial: 'cubic'/'spline' values are SciPy's; their "
+            "argument forwarding and the Weaver grid construction are checked by correspondence, node reproduction by the oracle.",
+            "numpy.interp semantics modelled (trusted model of NumPy); SciPy splines are oracles",
+            "Coq proof + in-Coq correspondence"),
+    "C14": ("Coq theorems: trend is the point-wise map y_i + f(.) leaving x, zero trend is the identity, trends add (Leibniz); normalisation is an "
+            "increasing affine map sending min to lo and max to hi, keeps sortedness; shift/scale are point-wise maps in the Weaver model (C08).",
+            "models Process/Weaver tied by sampled correspondence", "Coq proof + in-Coq correspondence"),
+    "C17": ("Coq theorems for every helper: oversampling (length, every n-th element, linear fill), extension (n per side, closed forms, middle kept), "
+            "append, interval get/set at flat index i*n+j, row layout with padding, integration rules, and averaging an n-fold piecewise-constant "
+            "oversampling returns the input (Leibniz).",
+            "models SortedUtils/Interval (incl. the NumPy primitives they use) tied by sampled correspondence",
+            "Coq proof + in-Coq correspondence"),
+    "C20": ("Coq theorems: one rejection lemma per class (13 classes) and, for every state with non-empty fields and every operation, a ValueError "
+            "outcome leaves all six series unchanged (this proof attempt exposed defect D10, since repaired).",
+            "model coq/Model/Weaver.v tied by program correspondence with an invalid-request stream after random valid histories",
+            "Coq proof (case analysis over the state machine) + in-Coq correspondence"),
 }
 
 NOT_YET = "check not built yet (work in progress; see DESIGN.md section 10 order of work)"
